@@ -81,8 +81,9 @@ pub fn translate(src: &str, opts: &Options) -> Res<String> {
     if !types.contains(&opts.impl_type) {
         types.insert(0, opts.impl_type.clone());
     }
+    let is_enum = |t: &str| file.items.iter().any(|it| matches!(it, Item::Enum(e) if e.ident == t));
     for t in &types {
-        if !defs.contains_key(t) {
+        if !defs.contains_key(t) && !is_enum(t) {
             if let Some((_, line)) = tuple_structs.iter().find(|(n, _)| n == t) {
                 return Err(Error(format!("{}:{}: struct `{}` has no named fields", label, line, t)));
             }
@@ -168,6 +169,14 @@ pub fn translate(src: &str, opts: &Options) -> Res<String> {
     }
     for (k, l) in &opts.field_map {
         note!(tr, renames, format!("`{k}` is the field `{l}`"));
+    }
+    for t in &opts.transparent {
+        match tr.defs.get(t) {
+            Some(d) if d.kind == DefKind::Struct && d.fields.len() == 1 => {
+                note_once(&mut tr.notes.renames, format!("the struct `{t}` is its only field `{}` (`{t} {{ {}: v }}` is `v`)", d.fields[0].0, d.fields[0].0));
+            }
+            _ => return Err(Error(format!("{}: --transparent {t}: no struct with exactly one named field of this name in the file", label))),
+        }
     }
     for (k, l) in &opts.variant_map {
         note_once(&mut tr.notes.variants, format!("`{k}` is `{l}`"));
